@@ -99,9 +99,11 @@ pub enum OpK {
     Unwrap,
     Move,
     Compare,
+    /// gated APIs called on a clone INSIDE a with_arc-style callback (re-entrancy)
+    Nested,
 }
 
-pub const ALL_OPK: [OpK; 11] = [
+pub const ALL_OPK: [OpK; 12] = [
     OpK::Read,
     OpK::Create,
     OpK::Clone,
@@ -113,12 +115,13 @@ pub const ALL_OPK: [OpK; 11] = [
     OpK::Unwrap,
     OpK::Move,
     OpK::Compare,
+    OpK::Nested,
 ];
 
 #[derive(Clone, Debug)]
 pub struct Profile {
     pub name: &'static str,
-    pub weights: [u32; 11],
+    pub weights: [u32; 12],
     /// which property's non-triviality rule to evaluate
     pub rule: &'static str,
 }
@@ -130,13 +133,13 @@ impl Profile {
         let mut acc = 0u32;
         let mut k = 0usize;
         for i in 0..256u32 {
-            while k < 10 && (acc + self.weights[k]) * 256 <= i * total {
+            while k < 11 && (acc + self.weights[k]) * 256 <= i * total {
                 acc += self.weights[k];
                 k += 1;
             }
             // skip zero-weight entries
             let mut kk = k;
-            while kk < 10 && self.weights[kk] == 0 {
+            while kk < 11 && self.weights[kk] == 0 {
                 kk += 1;
             }
             t[i as usize] = ALL_OPK[kk];
@@ -148,14 +151,14 @@ impl Profile {
 pub fn profile(prop: &str) -> Profile {
     //                         Read Crea Clon Conv Rele Borr Uniq MkMu Unwr Move Comp
     match prop {
-        "C01" => Profile { name: "lifecycle", weights: [1, 3, 6, 7, 5, 3, 1, 1, 1, 2, 1], rule: "C01" },
-        "C04" => Profile { name: "counts", weights: [1, 2, 6, 6, 3, 7, 1, 1, 1, 3, 3], rule: "C04" },
-        "C03" => Profile { name: "uniqueness", weights: [1, 2, 5, 4, 4, 1, 9, 2, 2, 1, 0], rule: "C03" },
-        "C08" => Profile { name: "copy-on-write", weights: [1, 2, 5, 4, 3, 1, 1, 9, 1, 1, 0], rule: "C08" },
-        "C09" => Profile { name: "unwrap", weights: [1, 3, 5, 4, 3, 1, 2, 1, 9, 1, 0], rule: "C09" },
-        "C11" => Profile { name: "pointers", weights: [1, 3, 5, 8, 3, 4, 1, 1, 1, 5, 0], rule: "C11" },
-        "C12" => Profile { name: "unions", weights: [1, 3, 6, 7, 4, 5, 1, 1, 1, 2, 2], rule: "C12" },
-        _ => Profile { name: "uniform", weights: [1, 2, 4, 4, 3, 3, 2, 2, 2, 2, 1], rule: "any" },
+        "C01" => Profile { name: "lifecycle", weights: [1, 3, 6, 7, 5, 3, 1, 1, 1, 2, 1, 1], rule: "C01" },
+        "C04" => Profile { name: "counts", weights: [1, 2, 6, 6, 3, 7, 1, 1, 1, 3, 3, 2], rule: "C04" },
+        "C03" => Profile { name: "uniqueness", weights: [1, 2, 5, 4, 4, 1, 9, 2, 2, 1, 0, 3], rule: "C03" },
+        "C08" => Profile { name: "copy-on-write", weights: [1, 2, 5, 4, 3, 1, 1, 9, 1, 1, 0, 2], rule: "C08" },
+        "C09" => Profile { name: "unwrap", weights: [1, 3, 5, 4, 3, 1, 2, 1, 9, 1, 0, 3], rule: "C09" },
+        "C11" => Profile { name: "pointers", weights: [1, 3, 5, 8, 3, 4, 1, 1, 1, 5, 0, 0], rule: "C11" },
+        "C12" => Profile { name: "unions", weights: [1, 3, 6, 7, 4, 5, 1, 1, 1, 2, 2, 0], rule: "C12" },
+        _ => Profile { name: "uniform", weights: [1, 2, 4, 4, 3, 3, 2, 2, 2, 2, 1, 1], rule: "any" },
     }
 }
 
